@@ -1,9 +1,278 @@
-(** C10 - rounding to integers or to fewer digits picks the right neighbour. Statements only. *)
-From Dashu Require Import Base.Prelude Float.RoundSpec Float.RoundTablesProof Float.RoundSpecProof.
+(** C10 - rounding to integers or to fewer digits picks the right neighbour. Statements only.
+    B is the base (any B >= 2); a float is (s, e, p) = s * B^e with context precision p (0 =
+    unlimited); digits_ub is ANY function that never under-estimates the digit count (the contract of
+    Repr::digits_ub); [false] selects the repaired code (the pinned code is refuted at the end). *)
+From Dashu Require Import Base.Prelude Float.RoundSpec Float.RoundTablesProof Float.RoundSpecProof
+  Float.Contract Float.Model Float.ModelProof Float.RoundOpsModel Float.RoundOpsProof Float.RoundOpsLegal Float.RoundOpsDigits Float.RoundOpsUnique
+  Ratio.RatRoundModel Ratio.RatRoundProof.
 From DashuGen Require Import RoundTables.
 Open Scope Z_scope.
+
+(* ---------------------------------------------------------------- the two public primitives *)
 
 Theorem C10_T_round : forall m I n d, 0 < d -> n <> 0 -> Z.abs n < d ->
   I + adj (round_low_part m I (sign_of n) (2 * Z.abs n ?= d)) = spec_round m (I * d + n) d.
 Proof. exact T_round. Qed.
 Print Assumptions C10_T_round.
+
+Theorem C10_round_fract : forall B, 2 <= B -> forall m hi lo k, 0 <= k -> Z.abs lo < B ^ k ->
+  hi + adj (round_fract B m hi lo k) = spec_round m (hi * B ^ k + lo) (B ^ k).
+Proof. exact round_fract_spec. Qed.
+Print Assumptions C10_round_fract.
+
+Theorem C10_round_ratio : forall m I num den, den <> 0 -> Z.abs num < Z.abs den ->
+  I + adj (round_ratio m I num den) = spec_round m (Z.sgn den * (I * den + num)) (Z.abs den).
+Proof. exact round_ratio_spec. Qed.
+Print Assumptions C10_round_ratio.
+
+(* ---------------------------------------------------------------- what the specification means *)
+
+Theorem C10_spec_round_error : forall m N d, 0 < d ->
+  let r := spec_round m N d in
+  Z.abs (r * d - N) < d /\ (is_half_mode m = true -> 2 * Z.abs (r * d - N) <= d).
+Proof. exact spec_round_error. Qed.
+Print Assumptions C10_spec_round_error.
+
+Theorem C10_spec_round_side : forall m N d, 0 < d -> side_ok m N d (spec_round m N d).
+Proof. exact spec_round_side. Qed.
+Print Assumptions C10_spec_round_side.
+
+Theorem C10_spec_round_exact : forall m N d, 0 < d -> N mod d = 0 -> spec_round m N d * d = N.
+Proof. exact spec_round_exact. Qed.
+Print Assumptions C10_spec_round_exact.
+
+Theorem C10_tie_even : forall N d, 0 < d -> 2 * (N mod d) = d -> Z.even (spec_round MHalfEven N d) = true.
+Proof. exact spec_round_tie_even. Qed.
+Print Assumptions C10_tie_even.
+
+Theorem C10_tie_away : forall N d, 0 < d -> 2 * (N mod d) = d -> Z.abs N < Z.abs (spec_round MHalfAway N d * d).
+Proof. exact spec_round_tie_away. Qed.
+Print Assumptions C10_tie_away.
+
+Theorem C10_floor_unique : forall N d r, 0 < d -> r * d <= N < r * d + d -> r = spec_round MDown N d.
+Proof. exact floor_unique. Qed.
+Print Assumptions C10_floor_unique.
+
+Theorem C10_ceil_unique : forall N d r, 0 < d -> N <= r * d < N + d -> r = spec_round MUp N d.
+Proof. exact ceil_unique. Qed.
+Print Assumptions C10_ceil_unique.
+
+Theorem C10_trunc_unique : forall N d r, 0 < d -> Z.abs (r * d) <= Z.abs N -> Z.abs (r * d - N) < d ->
+  r = spec_round MZero N d.
+Proof. exact trunc_unique. Qed.
+Print Assumptions C10_trunc_unique.
+
+Theorem C10_nearest_unique : forall m N d r, 0 < d -> is_half_mode m = true -> 2 * Z.abs (r * d - N) < d ->
+  r = spec_round m N d.
+Proof. exact nearest_unique. Qed.
+Print Assumptions C10_nearest_unique.
+
+Theorem C10_tie_away_unique : forall N d r, 0 < d -> 2 * (N mod d) = d ->
+  2 * Z.abs (r * d - N) = d -> Z.abs N < Z.abs (r * d) -> r = spec_round MHalfAway N d.
+Proof. exact half_away_tie_unique. Qed.
+Print Assumptions C10_tie_away_unique.
+
+Theorem C10_tie_even_unique : forall N d r, 0 < d -> 2 * (N mod d) = d ->
+  2 * Z.abs (r * d - N) = d -> Z.even r = true -> r = spec_round MHalfEven N d.
+Proof. exact half_even_tie_unique. Qed.
+Print Assumptions C10_tie_even_unique.
+
+Theorem C10_trunc_fract_sum : forall B, 2 <= B -> forall s e, e < 0 ->
+  int_spec B MZero s e * B ^ (- e) + fract_sig_spec B s e = s /\
+  Z.abs (fract_sig_spec B s e) < B ^ (- e) /\
+  (0 <= s -> 0 <= fract_sig_spec B s e) /\ (s <= 0 -> fract_sig_spec B s e <= 0).
+Proof. exact trunc_fract_sum. Qed.
+Print Assumptions C10_trunc_fract_sum.
+
+Theorem C10_flag_range : forall B, 2 <= B -> forall m s e,
+  -1 <= int_spec B m s e - int_spec B MZero s e <= 1.
+Proof. exact int_spec_adj_range. Qed.
+Print Assumptions C10_flag_range.
+
+Theorem C10_exact_iff_integer : forall B, 2 <= B -> forall m s e,
+  is_int B s e = true -> int_spec B m s e = int_spec B MZero s e.
+Proof. exact int_spec_exact. Qed.
+Print Assumptions C10_exact_iff_integer.
+
+(* ---------------------------------------------------------------- float/src/round_ops.rs *)
+
+Theorem C10_smaller_than_one_sound : forall B, 2 <= B -> forall digits_ub, (forall s, dlen B s <= digits_ub s) ->
+  forall s e, smaller_than_one digits_ub s e = true ->
+  e < 0 /\ Z.abs s * B ^ 2 < B ^ (- e) /\ 2 * Z.abs s < B ^ (- e).
+Proof. exact smaller_than_one_sound. Qed.
+Print Assumptions C10_smaller_than_one_sound.
+
+Theorem C10_trunc : forall B, 2 <= B -> forall digits_ub, (forall s, dlen B s <= digits_ub s) ->
+  forall p s e, int_valued B (trunc_asis B digits_ub p s e) (int_spec B MZero s e).
+Proof. exact trunc_asis_spec. Qed.
+Print Assumptions C10_trunc.
+
+Theorem C10_fract : forall B, 2 <= B -> forall digits_ub, (forall s, dlen B s <= digits_ub s) ->
+  forall p s e, e < 0 -> frac_valued B (fract_asis B digits_ub false p s e) e (fract_sig_spec B s e).
+Proof. exact fract_asis_spec. Qed.
+Print Assumptions C10_fract.
+
+Theorem C10_fract_of_integer : forall B digits_ub p s e, 0 <= e -> fract_asis B digits_ub false p s e = FZERO.
+Proof. exact fract_asis_int. Qed.
+Print Assumptions C10_fract_of_integer.
+
+Theorem C10_split_trunc : forall B digits_ub p s e,
+  fst (split_asis B digits_ub p s e) = trunc_asis B digits_ub p s e.
+Proof. exact split_asis_trunc. Qed.
+Print Assumptions C10_split_trunc.
+
+Theorem C10_split_fract : forall B, 2 <= B -> forall digits_ub, (forall s, dlen B s <= digits_ub s) ->
+  forall p s e, e < 0 -> frac_valued B (snd (split_asis B digits_ub p s e)) e (fract_sig_spec B s e).
+Proof. exact split_asis_fract. Qed.
+Print Assumptions C10_split_fract.
+
+Theorem C10_floor : forall B, 2 <= B -> forall digits_ub, (forall s, dlen B s <= digits_ub s) ->
+  forall p s e, exists f, floor_asis B digits_ub false p s e = Ok f /\ int_valued B f (int_spec B MDown s e).
+Proof. exact floor_asis_spec. Qed.
+Print Assumptions C10_floor.
+
+Theorem C10_ceil : forall B, 2 <= B -> forall digits_ub, (forall s, dlen B s <= digits_ub s) ->
+  forall p s e, (e < 0 -> s <> 0) ->
+  exists f, ceil_asis B digits_ub false p s e = Ok f /\ int_valued B f (int_spec B MUp s e).
+Proof. exact ceil_asis_spec. Qed.
+Print Assumptions C10_ceil.
+
+Theorem C10_round : forall B, 2 <= B -> forall digits_ub, (forall s, dlen B s <= digits_ub s) ->
+  forall p s e, exists f, round_asis B digits_ub false p s e = Ok f /\ int_valued B f (int_spec B MHalfAway s e).
+Proof. exact round_asis_spec. Qed.
+Print Assumptions C10_round.
+
+(* ---------------------------------------------------------------- to_int, with_precision *)
+
+Theorem C10_to_int : forall B, 2 <= B -> forall digits_ub, (forall s, dlen B s <= digits_ub s) ->
+  forall m p s e, (e < 0 -> s mod B <> 0) ->
+  to_int_asis B digits_ub false m p s e = Ok (to_int_spec B m s e).
+Proof. exact to_int_asis_spec. Qed.
+Print Assumptions C10_to_int.
+
+Theorem C10_repr_to_int : forall B, 2 <= B -> forall digits_ub, (forall s, dlen B s <= digits_ub s) ->
+  forall s e, (e < 0 -> s mod B <> 0) -> repr_to_int_asis B digits_ub s e = to_int_spec B MZero s e.
+Proof. exact repr_to_int_asis_spec. Qed.
+Print Assumptions C10_repr_to_int.
+
+Theorem C10_with_precision : forall B, 2 <= B -> forall m p s e np, 0 <= p -> 0 <= np -> (p = 0 \/ dlen B s <= p) ->
+  with_precision_asis B false m p s e np = norm_approx B (with_precision_spec B m s e np).
+Proof. exact with_precision_asis_spec. Qed.
+Print Assumptions C10_with_precision.
+
+Theorem C10_with_precision_meaning : forall B, 2 <= B -> forall m s e np, 1 <= np -> np < dlen B s ->
+  exists r f, with_precision_spec B m s e np = AInexact r (e + (dlen B s - np)) f /\
+    let k := dlen B s - np in
+    B ^ (np - 1) <= Z.abs r <= B ^ np /\ Z.abs (r * B ^ k - s) < B ^ k /\
+    (is_half_mode m = true -> 2 * Z.abs (r * B ^ k - s) <= B ^ k) /\ side_ok m s (B ^ k) r /\
+    adj f = r - Z.quot s (B ^ k).
+Proof. exact with_precision_spec_props. Qed.
+Print Assumptions C10_with_precision_meaning.
+
+(* ---------------------------------------------------------------- result precisions stay legal *)
+
+Theorem C10_legal_trunc : forall B, 2 <= B -> forall digits_ub p s e, 0 <= p -> (p = 0 \/ dlen B s <= p) ->
+  legal B (trunc_asis B digits_ub p s e).
+Proof. exact trunc_legal. Qed.
+Print Assumptions C10_legal_trunc.
+
+Theorem C10_legal_floor_ceil_round : forall B, 2 <= B -> forall digits_ub, (forall s, dlen B s <= digits_ub s) ->
+  forall p s e f, 0 <= p -> (p = 0 \/ dlen B s <= p) ->
+  (floor_asis B digits_ub false p s e = Ok f -> legal B f) /\
+  (ceil_asis B digits_ub false p s e = Ok f -> legal B f) /\
+  (round_asis B digits_ub false p s e = Ok f -> legal B f).
+Proof.
+  exact (fun B HB dub Hd p s e f Hp Hl =>
+    conj (floor_legal B HB dub Hd p s e f Hp Hl)
+      (conj (ceil_legal B HB dub Hd p s e f Hp Hl) (round_legal B HB dub Hd p s e f Hp Hl))).
+Qed.
+Print Assumptions C10_legal_floor_ceil_round.
+
+Theorem C10_legal_fract_split : forall B, 2 <= B -> forall digits_ub, (forall s, dlen B s <= digits_ub s) ->
+  forall p s e, legal B (fract_asis B digits_ub false p s e) /\
+  (0 <= p -> (p = 0 \/ dlen B s <= p) ->
+   legal B (fst (split_asis B digits_ub p s e)) /\ legal B (snd (split_asis B digits_ub p s e))).
+Proof.
+  exact (fun B HB dub Hd p s e => conj (fract_legal B HB dub Hd p s e) (split_legal B HB dub p s e)).
+Qed.
+Print Assumptions C10_legal_fract_split.
+
+Theorem C10_legal_with_precision : forall B, 2 <= B -> forall m s e np, 0 <= np ->
+  np = 0 \/ dlen B (approx_sig (norm_approx B (with_precision_spec B m s e np))) <= np.
+Proof. exact with_precision_legal. Qed.
+Print Assumptions C10_legal_with_precision.
+
+(* ---------------------------------------------------------------- float/src/utils.rs digit splitting *)
+
+Theorem C10_split_digits_10 : forall v k, 0 <= k -> split_digits_10 v k = split_digits 10 v k.
+Proof. exact split_digits_10_spec. Qed.
+Print Assumptions C10_split_digits_10.
+
+Theorem C10_split_digits_pow2 : forall t v k, 0 <= t -> 0 <= k -> split_digits_pow2 t v k = split_digits (2 ^ t) v k.
+Proof. exact split_digits_pow2_spec. Qed.
+Print Assumptions C10_split_digits_pow2.
+
+Theorem C10_shr_digits_10 : forall v k, 0 <= k -> shr_digits_10 v k = Z.quot v (10 ^ k).
+Proof. exact shr_digits_10_spec. Qed.
+Print Assumptions C10_shr_digits_10.
+
+(* ---------------------------------------------------------------- rational/src/round.rs *)
+
+Theorem C10_rat_trunc : forall n d, rat_trunc n d = spec_round MZero n d.
+Proof. exact rat_trunc_spec. Qed.
+Print Assumptions C10_rat_trunc.
+
+Theorem C10_rat_floor : forall n d, 0 < d -> rat_floor n d = spec_round MDown n d.
+Proof. exact rat_floor_spec. Qed.
+Print Assumptions C10_rat_floor.
+
+Theorem C10_rat_ceil : forall n d, 0 < d -> rat_ceil n d = spec_round MUp n d.
+Proof. exact rat_ceil_spec. Qed.
+Print Assumptions C10_rat_ceil.
+
+Theorem C10_rat_round : forall n d, 0 < d -> rat_round n d = spec_round MHalfAway n d.
+Proof. exact rat_round_spec. Qed.
+Print Assumptions C10_rat_round.
+
+Theorem C10_rat_fract : forall n d, 0 < d ->
+  let '(fn, fd) := rat_fract n d in
+  0 < fd /\ n * fd = rat_trunc n d * d * fd + fn * d /\ Z.abs fn < fd /\
+  (0 <= n -> 0 <= fn) /\ (n <= 0 -> fn <= 0) /\ (Z.gcd n d = 1 -> Z.gcd fn fd = 1).
+Proof. exact rat_fract_spec. Qed.
+Print Assumptions C10_rat_fract.
+
+Theorem C10_rat_split : forall n d, rat_split n d = (rat_trunc n d, rat_fract n d).
+Proof. exact rat_split_spec. Qed.
+Print Assumptions C10_rat_split.
+
+Theorem C10_round_depends_on_value_only : forall m n d g, 0 < d -> 0 < g ->
+  spec_round m (n * g) (d * g) = spec_round m n d.
+Proof. exact spec_round_scale. Qed.
+Print Assumptions C10_round_depends_on_value_only.
+
+Theorem C10_rbig_reduction : forall n d, 0 < d ->
+  let '(n', d') := rat_reduce n d in 0 < d' /\ forall m, spec_round m n' d' = spec_round m n d.
+Proof. exact rat_reduce_round. Qed.
+Print Assumptions C10_rbig_reduction.
+
+Theorem C10_relaxed_reduction : forall n d, 0 < d ->
+  let '(n', d') := rat_reduce2 n d in 0 < d' /\ forall m, spec_round m n' d' = spec_round m n d.
+Proof. exact rat_reduce2_round. Qed.
+Print Assumptions C10_relaxed_reduction.
+
+(* ---------------------------------------------------------------- the pinned tree is refuted *)
+
+Theorem C10_pinned_small_fraction_refuted :
+  to_int_asis 10 (dub_exact 10) true MHalfEven 2 99 (-4) = Ok (IInexact 1 AddOne) /\
+  to_int_spec 10 MHalfEven 99 (-4) = IInexact 0 NoOp /\
+  round_asis 10 (dub_exact 10) true 2 99 (-4) = Ok (1, 0, 0) /\
+  int_spec 10 MHalfAway 99 (-4) = 0 /\
+  to_int_asis 10 (dub_exact 10) true MHalfAway 0 1 (-3) = Panic Undocumented.
+Proof. exact split_internal_pinned_refuted. Qed.
+Print Assumptions C10_pinned_small_fraction_refuted.
+
+Theorem C10_pinned_with_precision_refuted :
+  with_precision_asis 10 true MHalfAway 0 12345 0 3 = AExact 12345 0 /\
+  norm_approx 10 (with_precision_spec 10 MHalfAway 12345 0 3) = AInexact 123 2 NoOp.
+Proof. exact with_precision_pinned_refuted. Qed.
+Print Assumptions C10_pinned_with_precision_refuted.
